@@ -1,15 +1,16 @@
 #!/bin/sh
 # tools/reseed.sh [seed-name-prefix...] : re-run every stored seeded change (seeded/<name>/patch.diff) against the checks recorded as
-# catching it (meta.json caught_by); prints CAUGHT / MISSED / NOAPPLY per seed.  /repo is patched only transiently.
+# catching it (meta.json caught_by), each in its own throw-away worktree (tools/mutcheck.sh, MUT_WT=1), JOBS at a time (default 4).
+# Prints CAUGHT / MISSED / NOAPPLY per seed.  /repo itself is not touched.
 cd "$(dirname "$0")/.."
 pat="${*:-C}"
-for d in seeded/*/; do
-  n=$(basename $d); ok=0; for p in $pat; do case $n in $p*) ok=1;; esac; done; [ $ok -eq 1 ] || continue
+one() {
+  d=$1; n=$(basename $d)
   ids=$(/venv/bin/python -c "import json; print(' '.join(json.load(open('$d/meta.json'))['caught_by']))")
-  if ! git -C /repo apply --check $PWD/$d/patch.diff 2>/dev/null; then echo "$n NOAPPLY"; continue; fi
-  git -C /repo apply $PWD/$d/patch.diff
-  res=""
-  for c in $ids; do ./check $c --tier quick >/dev/null 2>&1; rc=$?; res="$res $c:rc=$rc"; done
-  git -C /repo checkout -- .
-  case "$res" in *rc=1*) echo "$n CAUGHT$res";; *) echo "$n MISSED$res";; esac
-done
+  out=$(MUT_WT=1 tools/mutcheck.sh $PWD/$d/patch.diff $ids 2>&1)
+  case "$out" in *"does not apply"*) echo "$n NOAPPLY";; *"rc=1"*) echo "$n CAUGHT $(echo "$out" | grep -o '== C[0-9]* rc=[0-9]*' | tr '\n' ' ')";; *) echo "$n MISSED $(echo "$out" | grep -o '== C[0-9]* rc=[0-9]*' | tr '\n' ' ')";; esac
+}
+list=""
+for d in seeded/*/; do n=$(basename $d); for p in $pat; do case $n in $p*) list="$list $d";; esac; done; done
+i=0
+for d in $list; do one $d & i=$((i+1)); [ $((i % ${JOBS:-4})) -eq 0 ] && wait; done; wait
